@@ -121,8 +121,16 @@ def run(ctx):
     # ---------------------------------------------------------------- R3
     r = ctx.rule("C03-R3", "ORDER", "the walk down the command tree stops at the first token that names no "
                  "(sub-)command, and descends through *named* sub-commands", reference=2)
-    pa = res.methods.get("process_arguments")
-    ctx.require(pa is not None, "DefaultResolver.process_arguments missing")
+    pa0 = res.methods.get("process_arguments")
+    ctx.require(pa0 is not None, "DefaultResolver.process_arguments missing")
+    # the walk may live in a private helper: take the function (process_arguments or a method it calls
+    # on self) that holds the loop with the membership test
+    cand = [pa0] + [t for cs in cg.sites_in(pa0) for t in cs.targets if t.cls is not None and res in t.cls.mro and t.name.startswith("_")]
+    pa = pa0
+    for f in cand:
+        if any(isinstance(n, ast.For) and any(isinstance(x, ast.Compare) and isinstance(x.ops[0], (ast.In, ast.NotIn)) for x in walk_no_nested(n)) for n in walk_no_nested(f.node)):
+            pa = f
+            break
     cfg = ctx.cfg(pa)
     miss_edges = []
     for n in cfg.nodes:
@@ -286,7 +294,8 @@ def run(ctx):
         if isinstance(n, ast.Assign) and isinstance(n.value, ast.Call) and isinstance(n.value.func, ast.Attribute) and n.value.func.attr == "process_default_commands":
             res_var = n.targets[0].id if isinstance(n.targets[0], ast.Name) else None
     ctx.require(res_var, "process_default_sub_commands does not ask for the default sub-commands")
-    own = [n for n in cfg.nodes if n.kind == "return" and isinstance(n.ast.value, ast.Call) and norm(n.ast.value.func).endswith("ResolveResult")]
+    own = [n for n in cfg.nodes if n.kind in ("return", "stmt") and isinstance(getattr(n.ast, "value", None), ast.Call) and norm(n.ast.value.func).endswith("ResolveResult")]
+    ctx.require(own, "process_default_sub_commands never falls back to the command itself")
     t_edges = [e for e in cfg.nodes if e.kind == "T" and isinstance(e.ast, ast.Name) and e.ast.id == res_var]
     if not t_edges:
         r.fail(pds, pds.node, "no test of the default result", "the result of the default sub-commands is never tested")
